@@ -55,6 +55,17 @@ CLAIMED = {
              "integer test are the recorded class numeric-inexact (swag dependency).",
         tech="Rocq proof (carrier independence over an exactness interface) + multi-carrier correspondence + bit-exact float model test",
         ref="DESIGN.md 5/C13"),
+    "C14": dict(
+        text="Coq theorems: the byte-level transcription of utf8.RuneCountInString counts exactly the code points of every valid UTF-8 "
+             "string (all scalar values, any length); Pattern, Required, ReadOnly, FormatOf, MinItems/MaxItems meet their textbook "
+             "statements; the UniqueItems scan reports exactly a later element deep-equal to an earlier one; the full statement for "
+             "UniqueItems (numerically equal numbers of different types) is refuted by a witness (recorded finding). Tie: 13 helpers on "
+             "random arguments incl. invalid UTF-8, typed/untyped nils, all numeric kinds, nested slices, with purity (call twice) and "
+             "argument snapshots; model and textbook answers both compared with Go.",
+        note=TB + "Axioms: only the refutation witness computes with Flocq (stdlib real-number axioms, classic, funext). reflect's Convert "
+             "and DeepEqual are transcribed for the kinds the harness generates (no structs, channels, funcs).",
+        tech="Rocq proof (UTF-8 rune counting by case analysis over the encoding, helper specifications) + helper correspondence",
+        ref="DESIGN.md 5/C14"),
     "C16": dict(
         text="Coq theorems over the model of ParamValidator / HeaderValidator / itemsValidator: nil is not validated, every other value "
              "is; the first-error exit of the six-validator chain is sound (the verdict is the conjunction of all applicable groups). "
